@@ -3,7 +3,7 @@
 # run the check that found the defect (must report a violation), restore the tree.
 # usage: tools/revert_check.sh            (never leaves /repo modified)
 cd /verif
-pairs="60ba22e:C09 f3a4409:C11 8863c11:C11 29975a8:C16 4e0eee5:C12 086b396:C14 6ce3fb3:C15 30abfa7:C16 9d50a14:C17 6c3f8c2:C18"
+pairs="6fa0e14:C03 60ba22e:C09 f3a4409:C11 8863c11:C11 29975a8:C16 4e0eee5:C12 086b396:C14 6ce3fb3:C15 30abfa7:C16 9d50a14:C17 6c3f8c2:C18"
 for pr in $pairs; do
   c=${pr%%:*}; p=${pr##*:}
   if ! git -C /repo diff $c~1 $c | git -C /repo apply -R --check 2>/dev/null; then echo "$c $p: reverse patch does not apply cleanly (later fixes touch the same lines) - skipped"; continue; fi
